@@ -335,3 +335,9 @@ def run(ck, facts):
                       "`&self` on a non-opaque %s is accepted by the gate: the macro exports `this: &T` (pointer) while the C header declares `T self` (by value)" % kind.lower(), C.loc(lsp, ln))
         reads_ref, pushes_err, ln = arms_seen["Opaque"]
         ck.expect(reads_ref and pushes_err, "R6", "lower_self_param/Opaque/self", "by-value opaque receivers are rejected", "by-value `self` on an opaque must be rejected", C.loc(lsp, ln))
+
+    # ---------------- R7/R8: clauses shared with C11 and C16 (enum values and NULL+0 slices are part of what C sees)
+    import c11
+    import c16
+    c11.run(C.SubCheck(ck, "R7", "enum values seen by C are rustc's: discriminant inference, HIR copy and the C/C++ enum templates (rules of C11)", {"R3", "R4"}), facts)
+    c16.run(C.SubCheck(ck, "R8", "slices and strings cross unchanged, NULL+0 is the empty slice: raw-parts reconstruction rules of the runtime views (rules of C16)", {"R1", "R2"}), facts)
